@@ -79,7 +79,8 @@ class _SdpDevice:
     def send_hab(self) -> None:
         raise NotImplementedError
 
-    def send_status(self, word: int, checked: bool) -> None:
+    def send_status(self, word: int, checked: bool, ok: Optional[int] = None) -> None:
+        """`ok` = the word that means success for the running command (None: the host does not compare the word)."""
         raise NotImplementedError
 
     def send_data(self, data: bytes) -> None:
@@ -105,7 +106,7 @@ class _SdpDevice:
                 width = fmt // 8 if fmt in (8, 16, 32) else 4
                 core.mem.write(address, (value & ((1 << (8 * width)) - 1)).to_bytes(width, "little"))
             self.send_hab()
-            self.send_status(word, True)
+            self.send_status(word, True, WRITE_DATA_OK)
         elif tag in (T_WRITE_FILE, T_WRITE_DCD, T_WRITE_CSF):
             self.pending = (tag, address, count)
             self.buf = bytearray()
@@ -117,7 +118,7 @@ class _SdpDevice:
             self.send_status(core.error_status, False)
         elif tag == T_SKIP_DCD:
             self.send_hab()
-            self.send_status(core.status_word(tag, SKIP_DCD_OK), True)
+            self.send_status(core.status_word(tag, SKIP_DCD_OK), True, SKIP_DCD_OK)
         elif tag == T_JUMP:
             core.jumps.append(address)
             core.completed = True
@@ -157,7 +158,7 @@ class _SdpDevice:
             else:
                 core.csf.append((address, data))
         self.send_hab()
-        self.send_status(word, True)
+        self.send_status(word, True, natural)
 
 
 class SdpUartDevice(_SdpDevice):
@@ -183,7 +184,7 @@ class SdpUartDevice(_SdpDevice):
             else:
                 break
 
-    def _word(self, word: int, role: str, checked: bool) -> None:
+    def _word(self, word: int, role: str, checked: bool, ok: Optional[int] = None) -> None:
         raw = struct.pack(">I", word)
         link = self.link
         if role == "status" and checked and link.covers(4, ("errstatus",)):
@@ -191,13 +192,15 @@ class SdpUartDevice(_SdpDevice):
             self.core.completed = False
             link.emit_after_fault(struct.pack(">I", int(link.plan.get("status", 0x33221100)) & 0xFFFFFFFF))
             return
-        link.emit(raw, {"role": role, "checked": checked})
+        # word / ok: what the unit says and what would mean success - the raw stream has no checksum, so a corruption
+        # that turns the one into the other cannot be told from a genuine success answer
+        link.emit(raw, {"role": role, "checked": checked, "word": word, "ok": ok})
 
     def send_hab(self) -> None:
         self._word(self.core.hab, "hab", False)
 
-    def send_status(self, word: int, checked: bool) -> None:
-        self._word(word, "status", checked)
+    def send_status(self, word: int, checked: bool, ok: Optional[int] = None) -> None:
+        self._word(word, "status", checked, ok)
 
     def send_data(self, data: bytes) -> None:
         if data:
@@ -245,7 +248,7 @@ class SdpHidDevice(_SdpDevice):
     def send_hab(self) -> None:
         self.link.emit(bytes([3]) + struct.pack(">I", self.core.hab), {"role": "hab"})
 
-    def send_status(self, word: int, checked: bool) -> None:
+    def send_status(self, word: int, checked: bool, ok: Optional[int] = None) -> None:
         raw = self._ret(struct.pack(">I", word))
         link = self.link
         if checked and link.covers(len(raw), ("errstatus",)):
